@@ -498,3 +498,15 @@ Section Inv.
     unfold step. rewrite H. destruct (status s' k); reflexivity.
   Qed.
 End Inv.
+
+(** the client timeout bounds every call, whatever deadline the caller's context has *)
+Theorem effective_deadline_bounds timeout caller :
+  effective_deadline timeout caller <= timeout /\
+  (forall c, caller = Some c -> effective_deadline timeout caller <= c) /\
+  (effective_deadline timeout caller = timeout \/ caller = Some (effective_deadline timeout caller)).
+Proof.
+  unfold effective_deadline. destruct caller as [c|].
+  - repeat split; [apply Nat.le_min_l|intros c' [= <-]; apply Nat.le_min_r|].
+    destruct (Nat.min_spec timeout c) as [[_ ->]|[_ ->]]; auto.
+  - repeat split; [apply le_n|discriminate|auto].
+Qed.
